@@ -329,7 +329,9 @@ PROPS["C06"] = {
     "harnesses": ["h_solver"],
     "workloads": lambda tier, seed: [{"harness": "h_solver", "tag": "verdicts", "args": ["c06", seed, 300 if tier == "quick" else 5000]},
                                      # the final status and the boxes of searches that were interrupted, saved, reloaded and resumed
-                                     {"harness": "h_solver", "tag": "resume", "args": ["c18r", seed + 2000, 14 if tier == "quick" else 120] + (["full"] if tier == "thorough" else [])}],
+                                     {"harness": "h_solver", "tag": "resume", "args": ["c18r", seed + 2000, 14 if tier == "quick" else 120] + (["full"] if tier == "thorough" else []),
+                                      # the replayed search logs and the covered-point lines decide completeness (C05 / C18), not the verdicts
+                                      "out_of_scope": r"^(solvelog|resumelog|solvept) "}],
     "nontrivial": _c06_nontrivial,
     "rule": "real Solver runs (same assemblies as C05, plus DefaultSolver) on random systems with planted exact solutions, square systems with 2-3 "
             "regular solutions all known exactly, systems with singular solutions, under-constrained and inequality-only systems; for every box of "
